@@ -39,14 +39,14 @@ type Pair struct {
 
 // Value is a model value.  Only the fields relevant for K are used.
 type Value struct {
-	K Kind    `json:"kind"`
-	I int64   `json:"i,omitempty"`
-	F float64 `json:"-"`
-	FS string `json:"f,omitempty"` // float as string for JSON (NaN/Inf safe)
-	S string  `json:"s,omitempty"`
-	B bool    `json:"b,omitempty"`
-	A []Value `json:"a,omitempty"`
-	H []Pair  `json:"h,omitempty"`
+	K  Kind    `json:"kind"`
+	I  int64   `json:"i,omitempty"`
+	F  float64 `json:"-"`
+	FS string  `json:"f,omitempty"` // float as string for JSON (NaN/Inf safe)
+	S  string  `json:"s,omitempty"`
+	B  bool    `json:"b,omitempty"`
+	A  []Value `json:"a,omitempty"`
+	H  []Pair  `json:"h,omitempty"`
 }
 
 // Constructors.
@@ -271,7 +271,66 @@ func DeepEqual(a, b Value) bool {
 
 // Describe is a short "TYPE:printed" description.
 func (v Value) Describe() string {
+	if v.K == KArray || v.K == KHash {
+		return fmt.Sprintf("%s:%s~%s", v.Type(), v.Inspect(), v.Sig())
+	}
 	return fmt.Sprintf("%s:%s", v.Type(), v.Inspect())
+}
+
+// TreeSize counts the nodes of the value written out as a tree, giving up
+// (and returning a number above limit) once limit is exceeded. Containers
+// may share structure, so the tree can be far larger than the memory held.
+func (v Value) TreeSize(limit int) int {
+	n := 0
+	var walk func(v Value) bool
+	walk = func(v Value) bool {
+		n++
+		if n > limit {
+			return false
+		}
+		for _, e := range v.A {
+			if !walk(e) {
+				return false
+			}
+		}
+		for _, p := range v.H {
+			if !walk(p.K) || !walk(p.V) {
+				return false
+			}
+		}
+		return true
+	}
+	walk(v)
+	return n
+}
+
+// Sig is the nested type signature of a value: the printed form of a
+// container does not tell 1 from "1" or 2.0 from 2, the signature does.
+// Hash entries are listed by printed key, then key type.
+func (v Value) Sig() string {
+	switch v.K {
+	case KArray:
+		parts := make([]string, len(v.A))
+		for i, e := range v.A {
+			parts[i] = e.Sig()
+		}
+		return "[" + strings.Join(parts, ",") + "]"
+	case KHash:
+		ps := append([]Pair(nil), v.H...)
+		sort.SliceStable(ps, func(i, j int) bool {
+			a, b := ps[i].K.Inspect(), ps[j].K.Inspect()
+			if a != b {
+				return a < b
+			}
+			return ps[i].K.Type() < ps[j].K.Type()
+		})
+		parts := make([]string, len(ps))
+		for i, p := range ps {
+			parts[i] = p.K.Sig() + ":" + p.V.Sig()
+		}
+		return "{" + strings.Join(parts, ",") + "}"
+	}
+	return v.Type()
 }
 
 // Copy deep-copies the value.
